@@ -140,6 +140,28 @@ func checkText(c Case, rec *evid.Rec) error {
 	return nil
 }
 
+// readingOf tells whether fen is a valid position that agrees with every field of the FEN text in cmd.
+func readingOf(cmd, fen string) bool {
+	txt := strings.TrimSpace(strings.TrimPrefix(cmd, "position fen"))
+	if txt == cmd {
+		return false
+	}
+	in, out := strings.Fields(txt), strings.Fields(fen)
+	if len(in) == 0 || len(in) > 6 || len(out) != 6 {
+		return false
+	}
+	p, err := refchess.ParseFEN(fen)
+	if err != nil || p.Valid() != nil || p.Half > 100 || p.Full < 1 {
+		return false
+	}
+	for i, f := range in {
+		if f != out[i] && !(i == 3 && out[i] == "-") { // an en-passant target may be normalised away
+			return false
+		}
+	}
+	return true
+}
+
 func checkUCI(c Case, rec *evid.Rec) error {
 	lines := []string{"position fen " + c.FEN, "fen"}
 	if c.Bad != "" {
@@ -151,18 +173,22 @@ func checkUCI(c Case, rec *evid.Rec) error {
 		return fmt.Errorf("`position fen %s` + `fen` printed %q (stderr %q)", c.FEN, got, errOut)
 	}
 	if c.Bad != "" {
-		// The command counts as rejected unless the reader itself accepts its text as a valid position (a
-		// more lenient reader, e.g. one that completes missing counters, may legitimately install it).
-		alt := ""
-		if txt := strings.TrimSpace(strings.TrimPrefix(c.Bad, "position fen")); txt != c.Bad {
-			if nb, err := board.FromFEN(txt); err == nil && eng.Consistent(nb) == "" {
-				if rp := eng.ToRef(nb); rp.Valid() == nil {
-					alt = nb.FEN()
-				}
-			}
+		// Whether a command is rejected is the driver's decision. Seen from outside: the position is unchanged
+		// (rejected, or ignored), or the driver accepted the command - then it must have done so without any
+		// complaint, and what it installed must be a valid position that agrees with every field the text gives
+		// (a more lenient driver may complete missing fields). A position that changes although the driver
+		// complains, or changes to something the text does not say, is a rejected position being installed.
+		if len(got) != 2 {
+			return fmt.Errorf("after the command %q `fen` printed %q, the position was %q (stderr %q)", c.Bad, got[1:], c.FEN, errOut)
 		}
-		if len(got) != 2 || (got[1] != c.FEN && (alt == "" || got[1] != alt)) {
-			return fmt.Errorf("after the rejected command %q `fen` printed %q, the position was %q (stderr %q)", c.Bad, got[1:], c.FEN, errOut)
+		if got[1] != c.FEN {
+			silent := errOut == "" && len(strings.Split(strings.TrimSpace(out), "\n")) == len(got)
+			if !silent || !readingOf(c.Bad, got[1]) {
+				return fmt.Errorf("after the rejected command %q `fen` printed %q, the position was %q (stderr %q)", c.Bad, got[1:], c.FEN, errOut)
+			}
+			if rec != nil {
+				rec.Class("uci_lenient_acceptance")
+			}
 		}
 		if rec != nil {
 			rec.Class("uci_rejected_command")
